@@ -1,7 +1,7 @@
 #!/bin/bash
 # tools/seedeval.sh <patch.diff> <prop> [more props...]  -- run the named checks on /repo's current sources with the
 # patch applied as an OVERLAY (nothing in /repo is touched). Prints the new violations of each check.
-HERE="$(cd "$(dirname "$0")/.." && pwd)"; REPO="${REPO:-/repo}"; BIN="$HERE/bin/lkcheck"
+HERE="$(cd "$(dirname "$0")/.." && pwd)"; REPO="${REPO:-/repo}"; BIN="${BIN:-$HERE/bin/lkcheck}"; TABLES="${TABLES:-$HERE}"
 export GOFLAGS=-mod=mod GOPROXY=off GOSUMDB=off GOTOOLCHAIN=local
 F="$(readlink -f "$1")"; shift
 T="$(mktemp -d)"; trap 'rm -rf "$T"' EXIT
@@ -11,7 +11,7 @@ for f in $(grep -E '^\+\+\+ b/' "$F" | sed 's#^+++ b/##'); do
 done
 if ! (cd "$T/w" && patch -p1 -s -f --no-backup-if-mismatch < "$F" >/dev/null 2>&1); then echo "PATCH DOES NOT APPLY: $F"; exit 3; fi
 for P in "$@"; do
-  mkdir -p "$T/v$P"; cp "$HERE/known_findings.json" "$HERE/names.json" "$HERE/errors.json" "$HERE/guards.json" "$HERE/fields.json" "$HERE/defers.json" "$HERE/properties.jsonl" "$T/v$P/"
+  mkdir -p "$T/v$P"; cp "$TABLES/known_findings.json" "$TABLES/names.json" "$TABLES/errors.json" "$TABLES/guards.json" "$TABLES/fields.json" "$TABLES/defers.json" "$TABLES/properties.jsonl" "$T/v$P/"
   out=$("$BIN" -prop "$P" -repo "$REPO" -verif "$T/v$P" -overlay "${ov#:}" 2>&1); rc=$?
   echo "== $P rc=$rc"
   echo "$out" | grep -B1 "^VIOLATION" | grep -v "^VIOLATION\|^--" | cut -c1-260 | head -6
